@@ -6,7 +6,9 @@
 package main
 
 import (
+	"encoding/json"
 	"fmt"
+	"reflect"
 	"sort"
 	"strings"
 
@@ -152,5 +154,152 @@ func extCases(o *hx.Out) {
 			}
 		}
 		renderCase2(o, "render.index.random", m)
+	}
+}
+
+// ------------------------------------------------------------------ phase 5
+// HoverEvent.Contents non-nil (JSON form; model: coq/Model/C17_hover.v). The Go values are those of the universe
+// encoding/json decodes an interface into: nil, bool, float64 (integers here), string, []any, map[string]any.
+
+func anyToJV(v any) jv {
+	switch x := v.(type) {
+	case nil:
+		return jv{k: 'N'}
+	case bool:
+		if x {
+			return jv{k: 'T'}
+		}
+		return jv{k: 'F'}
+	case float64:
+		return jv{k: 'I', i: int64(x)}
+	case string:
+		return jv{k: 'S', s: x}
+	case []any:
+		o := jv{k: 'A'}
+		for _, e := range x {
+			o.l = append(o.l, anyToJV(e))
+		}
+		return o
+	case map[string]any:
+		o := jv{k: 'O'}
+		ks := make([]string, 0, len(x))
+		for k := range x {
+			ks = append(ks, k)
+		}
+		sort.Strings(ks)
+		for _, k := range ks {
+			o.keys = append(o.keys, k)
+			o.l = append(o.l, anyToJV(x[k]))
+		}
+		return o
+	}
+	return jv{k: 'S', s: fmt.Sprintf("<%T>", v)}
+}
+
+func genAny(r *hx.Rng, depth int) any {
+	n := 6
+	if depth <= 0 {
+		n = 4
+	}
+	switch r.Intn(n) {
+	case 0:
+		return nil
+	case 1:
+		return r.Bool()
+	case 2:
+		v := int64(r.Next() >> uint(11+r.Intn(53))) // magnitude < 2^53
+		if r.Bool() {
+			v = -v
+		}
+		return float64(v)
+	case 3:
+		return genStr(r)
+	case 4:
+		l := []any{}
+		for k := r.Intn(4); k > 0; k-- {
+			l = append(l, genAny(r, depth-1))
+		}
+		return l
+	default:
+		m := map[string]any{}
+		for k := r.Intn(4); k > 0; k-- {
+			m[genStr(r)] = genAny(r, depth-1)
+		}
+		return m
+	}
+}
+
+func hoverCase(o *hx.Out, cat string, action string, contents any, value chat.Message) {
+	he := chat.HoverEvent{Action: action, Contents: contents, Value: value}
+	caseLine := fmt.Sprintf("hoverj %s %s %s", hs(action), anyToJV(contents).show(), showMsg(value))
+	js, err := json.Marshal(&he)
+	if err != nil {
+		o.Case(cat, true, caseLine, "hoverj err")
+		o.Fail("C17.hover.contents", "marshal: action=%q contents=%#v err=%v", action, contents, err)
+		return
+	}
+	jt, perr := parseJSON(js)
+	var back chat.HoverEvent
+	uerr := json.Unmarshal(js, &back)
+	res := "err"
+	if uerr == nil {
+		res = fmt.Sprintf("ok %s %s %s", hs(back.Action), anyToJV(back.Contents).show(), showMsg(back.Value))
+	}
+	o.Case(cat, contents != nil, caseLine, fmt.Sprintf("hoverj %s | %s", jt.show(), res))
+	if perr != nil || uerr != nil || back.Action != action || !reflect.DeepEqual(back.Contents, contents) || !sameMsg(back.Value, value) {
+		o.Fail("C17.hover.contents", "action=%q contents=%#v json=%s back=%#v perr=%v uerr=%v", action, contents, js, back.Contents, perr, uerr)
+	}
+	// the same event inside a component: both the component and the contents come back
+	m := chat.Message{Text: "t", HoverEvent: &he}
+	mjs, merr := json.Marshal(m)
+	var mb chat.Message
+	if merr == nil {
+		merr = json.Unmarshal(mjs, &mb)
+	}
+	if merr != nil || mb.HoverEvent == nil || !reflect.DeepEqual(mb.HoverEvent.Contents, contents) || !sameMsg(mb, m) {
+		o.Fail("C17.hover.contents.component", "contents=%#v json=%s err=%v", contents, mjs, merr)
+	}
+}
+
+func phase5Cases(o *hx.Out) {
+	r := o.R
+	leaf := chat.Text("v")
+	for _, c := range []any{nil, true, false, float64(0), float64(-7), float64(1 << 53), "", "str", "§a%s", []any{}, []any{"a", float64(1), nil, true},
+		map[string]any{}, map[string]any{"id": "minecraft:stone", "count": float64(3)}, map[string]any{"b": "x", "a": []any{float64(1), nil}, "": map[string]any{"z": nil}},
+		map[string]any{"B": float64(1), "a": float64(2), "aa": float64(3), "a\x00": float64(4), "é": float64(5)}} {
+		hoverCase(o, "hover.boundary", "show_item", c, leaf)
+		hoverCase(o, "hover.boundary", "", c, chat.Message{Translate: "k1", With: chat.TranslateArgs{"s"}})
+	}
+	for i := 0; i < o.N(300, 10); i++ {
+		hoverCase(o, "hover.random", genStr(r), genAny(r, 3), genMsg(r, i%3))
+	}
+	// components that carry only ONE style field beside their text, at the top level, as extra, as translation
+	// argument and as hover value (a short form that forgets a field loses it in every one of these positions);
+	// a colour without an ANSI code and no flag in the same positions (the ANSI renderer's prefix slice)
+	{ // the driver still holds the second table: install the first one again on both sides
+		chat.SetLanguage(table)
+		keys := make([]string, 0, len(table))
+		for k := range table {
+			keys = append(keys, k)
+		}
+		sort.Strings(keys)
+		line := "table"
+		for _, k := range keys {
+			line += " " + hs(k) + "=" + hs(table[k])
+		}
+		o.Case("tables", false, line, fmt.Sprintf("table %d", len(keys)))
+	}
+	only := []chat.Message{
+		{Text: "x", Font: "minecraft:alt"}, {Text: "x", Insertion: "i"}, {Text: "x", Color: "red"}, {Text: "x", Color: "#ff0000"},
+		{Text: "x", Color: "Red"}, {Color: "reset"}, {Text: "x", Obfuscated: true}, {Text: "x", Obfuscated: true, Color: "#00ff00"},
+		{Text: "x", Bold: true}, {Text: "x", ClickEvent: chat.RunCommand("/c")}, {Text: "x", HoverEvent: chat.ShowText(chat.Text("h"))},
+		{Font: "f"}, {Text: "", Insertion: "i"},
+	}
+	for _, m := range only {
+		for _, w := range []chat.Message{m, {Text: "p", Extra: []chat.Message{m}}, {Translate: "k1", With: chat.TranslateArgs{m}},
+			{Translate: "k2", With: chat.TranslateArgs{"s", m}}, {Text: "p", HoverEvent: chat.ShowText(m)}} {
+			encCase(o, "enc.onefield", w)
+			renderCase(o, "render.onefield", w)
+		}
 	}
 }
